@@ -22,10 +22,28 @@ RoundTrip == RoundTrips(c.kind, c.x)
 CanonicalAccepted == (c.site = "top" /\ c.form = "canonical") => Verdict(c)
 SizeIsLength == LET d == Decode(c.kind, c.x) IN (d.ok /\ c.kind \in {"txbin", "block"}) => SizeOf(c.kind, d.v) = Len(c.x)
 
+\* a decoded header that carries a base fee (zero included) binds COM and alpha into the signing preimage; one without does not
+ExtensionSignedIffFee ==
+  LET d == Decode(c.kind, c.x) IN
+  (c.kind = "header" /\ d.ok) =>
+     LET v == d.v
+         e == v[Len(v)]
+         com2 == [v EXCEPT ![Len(v)] = [e EXCEPT !.com = ~e.com]]
+         alpha2 == [v EXCEPT ![Len(v)] = [e EXCEPT !.alpha = <<1>> \o e.alpha]]
+     IN /\ (HeaderPreimage(com2) # HeaderPreimage(v)) = e.hasfee
+        /\ (HeaderPreimage(alpha2) # HeaderPreimage(v)) = e.hasfee
+
 Out(cs) == [id |-> cs.id, kind |-> cs.kind, site |-> cs.site, form |-> cs.form, x |-> cs.x, ok |-> Verdict(cs)]
 Tables == [legacySigned |-> LegacySigned, dynSigned |-> DynSigned, legacyHashed |-> LegacyHashed, dynHashed |-> DynHashed,
            headerSignedWithFee |-> HeaderSignedWithFee, headerSignedNoFee |-> HeaderSignedNoFee,
-           maxClauses |-> MaxClauses, maxUnused |-> MaxUnused]
+           maxClauses |-> MaxClauses, maxUnused |-> MaxUnused,
+           headerBases |-> LET q == SetToSeq(HeaderBases) IN
+                           [i \in 1..Len(q) |-> [baseFee |-> q[i].baseFee, alpha |-> q[i].alpha, com |-> q[i].com, gas |-> q[i].gas,
+                                                  signed |-> HeaderSignedFor(q[i])]],
+           txBases |-> LET q == SetToSeq(TxBases) IN
+                       [i \in 1..Len(q) |-> [type |-> q[i].type, fees |-> q[i].fees, expiration |-> q[i].expiration, nonce |-> q[i].nonce,
+                                              clauses |-> q[i].clauses, dependsOn |-> q[i].dependsOn, delegated |-> q[i].delegated,
+                                              signed |-> TxSignedFor(q[i]), hashed |-> TxHashedFor(q[i])]]]
 Export(cases) == LET q == SetToSeq(cases) IN
              /\ TLCGet("stats").distinct >= 0
              /\ ndJsonSerialize("cases.ndjson", [i \in 1..Len(q) |-> Out(q[i])])
